@@ -144,6 +144,52 @@ def _expand(task):
     return dict(children=out, nreplay=nreplay, nrecheck=nrecheck)
 
 
+def _fresh_key(scn, hist):
+    """state key of `hist` replayed in a brand-new interpreter, where nothing an earlier world did can be seen"""
+    import json
+    import subprocess
+    import sys
+    import tempfile
+    prop = os.environ.get("VERIF_PROP")
+    if not prop:
+        return None
+    body = dict(scenario=scn.name, tier=os.environ.get("VERIF_TIER_CUR", "quick"), events=[list(e) for e in hist])
+    with tempfile.NamedTemporaryFile("w", suffix=".json", delete=False) as f:
+        json.dump(body, f)
+    try:
+        out = subprocess.run([sys.executable, "-W", "ignore", "-m", "mc.run", prop, "--tier", body["tier"], "--keyof", f.name],
+                             capture_output=True, text=True, timeout=600)
+        for line in out.stdout.splitlines():
+            if line.startswith("KEY "):
+                return line.split()[1]
+    except Exception:
+        pass
+    finally:
+        os.unlink(f.name)
+    return None
+
+
+def _classify_divergence(scn, hist, err):
+    """A replay that gives another state than the first run of the same history is a harness error (uncontrolled
+    nondeterminism) -- unless two replays in fresh interpreters agree with each other: then the implementation keeps state
+    outside the objects of one session (module / class level, shared mutable default) and a session's behaviour depends on
+    what earlier, unrelated sessions in the same process did."""
+    try:
+        json_ok = all(not isinstance(x, (bytes, bytearray)) for e in hist for x in e)
+    except TypeError:
+        json_ok = False
+    if not json_ok:
+        return None
+    k1 = _fresh_key(scn, hist)
+    k2 = _fresh_key(scn, hist) if k1 else None
+    if k1 and k1 == k2:
+        return dict(oracle="instance-isolation", sig="state-shared-between-sessions", history=hist,
+                    msg="replaying this history in this process gave a state different from the one first computed for it, while two replays in "
+                        "fresh interpreters agree (%s): the implementation keeps state outside the session's own objects, so sessions in one "
+                        "process influence each other [%s]" % (k1[:12], err[:160]))
+    return None
+
+
 def explore(scn, nproc=None, log=None, stop_on_violation=False, max_violations=25):
     global _SCN
     _SCN = scn
@@ -180,7 +226,13 @@ def explore(scn, nproc=None, log=None, stop_on_violation=False, max_violations=2
             capped = False
             for task, r in zip(frontier, results):
                 if "error" in r:
-                    raise RuntimeError(r["error"])
+                    v = _classify_divergence(scn, r.get("hist", task[0]), r["error"]) if r["error"].startswith("DIVERGENCE") else None
+                    if v is None:
+                        raise RuntimeError(r["error"])
+                    res.violations.append(v)
+                    res.caps_hit.append("stopped: sessions are not isolated from each other, further exploration would be meaningless")
+                    nxt = []
+                    break
                 hist = task[0]
                 if r.get("livelock"):
                     sig = ("livelock", "expansion-timeout")
